@@ -10,13 +10,17 @@ def pkey(p, r):
     return f'{p[0]!r},{p[1]!r}@{r}'
 
 
-def check_point(acc, a5, stratum, p, r, origin):
+def check_point(acc, a5, stratum, p, r, origin, reuse=False):
     acc.n['evaluations'] += 1
     acc.strata[stratum.split('_cell_')[0] if '_cell_' in stratum else stratum] += 1
     case = {'point': [p[0], p[1]], 'r': r, 'stratum': stratum}
     k = f'c01:{pkey(p, r)}'
     try:
-        c = a5.lonlat_to_cell(p, r)
+        arg = points.as_argument(p, reuse)
+        c = a5.lonlat_to_cell(arg, r)
+        if (arg[0], arg[1]) != (p[0], p[1]):
+            acc.violation(k + ':argument-modified', f'lonlat_to_cell modified the coordinate list it was given: {p!r} -> {list(arg)!r}', case)
+            return None
     except Exception as e:
         acc.violation(k + ':raises', f'lonlat_to_cell({p!r}, {r}) raised {type(e).__name__}: {e}', case)
         return None
@@ -58,8 +62,10 @@ def work(task):
         acc.violation(f'c01:alphabet:{task[0]}:{str(task[1])[:60]}', f'building the point alphabet raised {type(e).__name__}: {e} (a boundary or cell lookup failed)', {'task': list(task)[:2]})
         return acc
     base = {}
+    reuse = (hash(str(task[1])[:40]) + len(pts)) % 2 == 0     # every second task passes one list object, updated in place, instead of fresh tuples
+    acc.n['tasks_with_reused_list_argument'] += 1 if reuse else 0
     for stratum, p, r, origin in pts:
-        c = check_point(acc, a5, stratum, p, r, origin)
+        c = check_point(acc, a5, stratum, p, r, origin, reuse)
         if stratum == 'periodic' and c is not None:
             # 360-degree periodicity: same cell as for the wrapped longitude, or at least a cell that also contains the point
             q = (sp.wrap_lon(p[0]), p[1])
